@@ -235,6 +235,36 @@ func judgeReply(m *mdns.Msg, s *setup) (source string, addrok bool) {
 	if nAddr == 0 {
 		addrok = false
 	}
+	// the record type that was asked for must itself be in the ANSWER section and carry exactly that address
+	// (an AAAA query is answered by an AAAA record, an SVCB query by an SVCB record with the address as its
+	// ipv6hint, ANY by both); for the other address-type queries the code puts both records into the additional section
+	if len(m.Question) == 1 && ok {
+		hasAAAA, hasSVCB := false, false
+		for _, rr := range m.Answer {
+			switch v := rr.(type) {
+			case *mdns.AAAA:
+				if a, _ := netip.AddrFromSlice(v.AAAA); a == want {
+					hasAAAA = true
+				}
+			case *mdns.SVCB:
+				for _, kv := range v.Value {
+					if h, isHint := kv.(*mdns.SVCBIPv6Hint); isHint && len(h.Hint) == 1 {
+						if a, _ := netip.AddrFromSlice(h.Hint[0]); a == want {
+							hasSVCB = true
+						}
+					}
+				}
+			}
+		}
+		switch m.Question[0].Qtype {
+		case mdns.TypeAAAA:
+			addrok = addrok && hasAAAA
+		case mdns.TypeSVCB:
+			addrok = addrok && hasSVCB
+		case mdns.TypeANY:
+			addrok = addrok && hasAAAA && hasSVCB
+		}
+	}
 	return
 }
 
